@@ -86,7 +86,8 @@ def cArguments (c : COpts) (a : Arguments) : Arguments := stripArguments c.ann a
 def cExpr (_c : COpts) (e : Expr) : Expr := e
 
 mutual
-/-- `cls` = (decorators, bases) when the statement is a direct child of a class body -/
+/-- `cls` = (decorators, bases) of the class whose *namespace* the statement belongs to: a class body and the
+    compound statements nested in it (if / for / while / with / try / match), but not a nested def or class -/
 def cStmt (c : COpts) (cls : Option (List Expr × List Expr)) : Stmt → Stmt
   | .functionDef a n args body decs ret tps =>
     .functionDef a n (cArguments c args)
@@ -104,25 +105,25 @@ def cStmt (c : COpts) (cls : Option (List Expr × List Expr)) : Stmt → Stmt
      | .annAssign tg' ann' v' s' => .annAssign tg' (cExpr c ann') (v'.map (cExpr c)) s'
      | s => s)
   | .raise_ e ca => .raise_ (cExprOpt c e) (cExprOpt c ca)
-  | .for_ a tg it body orelse => .for_ a tg (cExpr c it) (cSuite c false (cBody c none body)) (cSuite c false (cBody c none orelse))
-  | .while_ t body orelse => .while_ (cExpr c t) (cSuite c false (cBody c none body)) (cSuite c false (cBody c none orelse))
-  | .if_ t body orelse => .if_ (cExpr c t) (cSuite c false (cBody c none body)) (cSuite c false (cBody c none orelse))
-  | .with_ a items body => .with_ a items (cSuite c false (cBody c none body))
+  | .for_ a tg it body orelse => .for_ a tg (cExpr c it) (cSuite c false (cBody c cls body)) (cSuite c false (cBody c cls orelse))
+  | .while_ t body orelse => .while_ (cExpr c t) (cSuite c false (cBody c cls body)) (cSuite c false (cBody c cls orelse))
+  | .if_ t body orelse => .if_ (cExpr c t) (cSuite c false (cBody c cls body)) (cSuite c false (cBody c cls orelse))
+  | .with_ a items body => .with_ a items (cSuite c false (cBody c cls body))
   | .try_ st body hs orelse fin =>
-    .try_ st (cSuite c false (cBody c none body)) (cHandlers c hs) (cSuite c false (cBody c none orelse)) (cSuite c false (cBody c none fin))
-  | .match_ s cases => .match_ s (cCases c cases)
+    .try_ st (cSuite c false (cBody c cls body)) (cHandlers c cls hs) (cSuite c false (cBody c cls orelse)) (cSuite c false (cBody c cls fin))
+  | .match_ s cases => .match_ s (cCases c cls cases)
   | .assign ts v => .assign ts (cExpr c v)
   | .expr v => .expr (cExpr c v)
   | s => s
 def cBody (c : COpts) (cls : Option (List Expr × List Expr)) : List Stmt → List Stmt
   | [] => []
   | s :: ss => cStmt c cls s :: cBody c cls ss
-def cHandlers (c : COpts) : List Handler → List Handler
+def cHandlers (c : COpts) (cls : Option (List Expr × List Expr)) : List Handler → List Handler
   | [] => []
-  | .mk ty n body :: hs => .mk ty n (cSuite c false (cBody c none body)) :: cHandlers c hs
-def cCases (c : COpts) : List MatchCase → List MatchCase
+  | .mk ty n body :: hs => .mk ty n (cSuite c false (cBody c cls body)) :: cHandlers c cls hs
+def cCases (c : COpts) (cls : Option (List Expr × List Expr)) : List MatchCase → List MatchCase
   | [] => []
-  | .mk p g body :: cs => .mk p g (cSuite c false (cBody c none body)) :: cCases c cs
+  | .mk p g body :: cs => .mk p g (cSuite c false (cBody c cls body)) :: cCases c cls cs
 end
 
 def isDocstring : Stmt → Bool
